@@ -226,6 +226,18 @@ class V(Exception):
         self.kind, self.site, self.detail = kind, site, detail
 
 
+def _group_stack(o, idx, knobs):
+    """Subtomograms of a group's own loader.  Grouping sends the molecules through one data-frame round trip
+    (orientations as float32 rotation vectors), which legitimately perturbs them by ~1e-7; the expectation does the same."""
+    import dask
+
+    ld = o.loader
+    sub_m = ld.molecules.subset(np.array(idx))
+    sub_m = type(sub_m).from_dataframe(sub_m.to_dataframe())
+    with W.knobs_ctx(knobs), dask.config.set({"scheduler": Sim(mode="sequential").get}):
+        return np.asarray(ld.replace(molecules=sub_m).asnumpy(), dtype=np.float64)
+
+
 def _mean_tol(n, x):
     return 8 * EPS32 * max(n, 1) * max(float(np.max(np.abs(x))) if np.size(x) else 0.0, 1e-30) + 1e-12
 
@@ -407,7 +419,7 @@ def execute(sc):
                     raise V("group-keys", name, f"keys {list(v_s.keys())} != {keys}")
                 for key in keys:
                     idx = [j for j, g_ in enumerate(feats) if g_ == key]
-                    sub = stack[idx]
+                    sub = _group_stack(o, idx, sc["knobs"])
                     if name == "group_average":
                         if max_abs_diff(v_s[key], sub.mean(axis=0)) > _mean_tol(len(idx), sub):
                             raise V("not-a-mean", name, f"group {key!r}: average is not the mean of its {len(idx)} members' subtomograms")
